@@ -36,3 +36,11 @@ add(Contract('yp_prolog_visitor.YPPrologVisitor.visitVARIABLE', 'fn', [('self', 
                  '(=> (not (= {var} "_")) (= {avc} {avc0}))',
                  # ... and the renaming is the function `mangle` (injective: spec.mangle_injective)
                  '(=> (not (= {var} "_")) (= {result} (mangle {var})))']))
+
+# ---- predicate expressions (C06): grammar alternative -> AST node ---------------------------------------------------
+V = 'yp_prolog_visitor.YPPrologVisitor.'
+add(Contract(V + 'visitSimplepredicate', 'pure', [('self', 'CSelf'), ('ctx', 'SP')], ret='Body', value='(spbody {ctx})',
+             notes='assumed here: TRUE/FAIL/CUT tokens and term predicates (bounded-checked by the reader differential)'))
+add(Contract(V + 'visitPredicateexpression', 'fn', [('self', 'CSelf'), ('ctx', 'PE')], ret='Body',
+             requires=['(wfpe {ctx})'],          # A-EXT-ANTLR: the tree is a derivation of the grammar rule
+             ensures=['(= {result} (pebody {ctx}))']))
